@@ -10,7 +10,7 @@ import (
 // Rules is the V-rule catalogue.
 var Rules = []report.Rule{
 	{ID: "V1", Floor: 1000, Props: []string{"C03", "C04", "C10"}, Text: "every user call lies in exactly one job closure, at its top nesting level, each user function is called from exactly one site, and the directive contains no go statement"},
-	{ID: "V2", Floor: 1000, Props: []string{"C04", "C11"}, Text: "every job closure has a named error result and, registered before any user call or return, exactly one deferred function calling recover() directly that routes a non-nil value into &cff.PanicError{Value: recovered} (or fallback / predicate hand-over read by the gated task's handler) and never re-panics"},
+	{ID: "V2", Floor: 1000, Props: []string{"C04", "C11", "C07", "C10"}, Text: "every job closure has a named error result and, registered before any user call or return, exactly one deferred function calling recover() directly that routes a non-nil value into &cff.PanicError{Value: recovered} (or fallback / predicate hand-over read by the gated task's handler) and never re-panics"},
 	{ID: "V3", Floor: 1000, Props: []string{"C07", "C08"}, Text: "the user function's error is assigned to the closure's named result and reaches the return unchanged (no wrapping, no overwrite outside handler/fallback)"},
 	{ID: "V4", Floor: 1000, Props: []string{"C09"}, Text: "ctx is defined once from the directive's context argument; every Enqueue and Wait gets it; ctx-taking user functions get the job's context parameter; no context constructor"},
 	{ID: "V5", Floor: 1000, Props: []string{"C01", "C02", "C11", "C12"}, Text: "every variable written inside a job closure has that job as its only writer; every job reading it has the writer among its transitive Dependencies; the caller reads it only after Wait() == nil (never from a deferred function); variables read by jobs are not written by the caller after the job's Enqueue"},
@@ -18,7 +18,7 @@ var Rules = []report.Rule{
 	{ID: "V7", Floor: 300, Props: []string{"C02", "C07"}, Text: "each Results target is assigned once, from a value variable, at top level strictly after a successful Wait; on failure the very error of Wait is returned and no target is written"},
 	{ID: "V9", Floor: 1000, Props: []string{"C03", "C08", "C19"}, Text: "SchedulerParams: Concurrency / ContinueOnError are the directive's hoisted arguments iff given; Emitter derives from all directive emitters in order"},
 	{ID: "V10", Floor: 100, Props: []string{"C10", "C01"}, Text: "Task: one unconditional Enqueue outside any loop. Slice/Map: one range loop over the directive's collection; per iteration one unconditional Enqueue of a closure created in that iteration, calling the function with per-iteration copies of (index/key, value); End job enqueued once after the loop with Dependencies = the slice that receives every iteration's job"},
-	{ID: "V11", Floor: 300, Props: []string{"C11", "C04"}, Text: "predicate result stored by a never-failing predicate job; task call dominated by p == true; false edge is exactly `return nil`; recover handler registered before the gate"},
+	{ID: "V11", Floor: 300, Props: []string{"C11", "C04", "C07"}, Text: "predicate result stored by a never-failing predicate job; task call dominated by p == true; false edge is exactly `return nil`; recover handler registered before the gate"},
 	{ID: "V12", Floor: 1000, Props: []string{"C11"}, Text: "task outputs are written only by the user call and, iff FallbackWith, by `outputs..., err = fallbacks..., nil` exactly on the err != nil edge after the call and on the recovered != nil edge of the handler"},
 	{ID: "V13", Floor: 3000, Props: []string{"C18"}, Text: "event typestate in site/condition form: Done emitted once by the first-registered defer; Error(err) once on the Wait-failed edge with the returned error, Success once before the final return nil, no other exits; skipped sweep deferred before the first Enqueue, testing each task's ran flag, every task struct swept once; per task: Success iff call returned without error, Error/ErrorRecovered(err) iff err != nil, Panic/PanicRecovered(recovered) iff recovered != nil in the handler, ran.Store(true) once past the gate before the call, TaskDone by the first-registered defer guarded by ran.Load(); emitters built by XInit iff instrumented, with this task's name"},
 	{ID: "V17", Floor: 300, Props: []string{"C12", "C18"}, Text: "the ran flags are sync/atomic values used only through their methods"},
